@@ -267,6 +267,7 @@ def c01(run):
 def c02(run):
     session(run, {"wf"})
     session_trace(run, "C02", "wf")
+    shadow_trace(run, "C02", "wf")
 
 
 def c06(run):
@@ -299,6 +300,9 @@ def c03(run):
     run.add(tlc, s)
     run.rule += ("  ||  impl -> spec: the candidate corpus of C07 (dictionary-guided spellings, auto-correct keys, suffixed and wrapped words, emoticons, "
                  "names; English / smart quotes / ANSI option sets) validated against Trace_Cands with Focus=C03 (PropHasTranslit on every list)")
+    # ... and inside whole sessions (the list option switched off and on by update-engine, other words in between): every list must
+    # equal the one of a brand-new context, for which the clause is established above
+    shadow_trace(run, "C03", "translit")
     run.assumptions += ["the transliteration function itself is the okkhor public parser (oracle named by the statement)",
                         "class uniformity is tested by the swept/random variants, not assumed; for non-wrapped strings the split of the transcript is the definition"]
 
